@@ -72,6 +72,8 @@ def abstract_stimuli(labels):
             out.append(('sesslost',))
         elif name == 'SessionInit':
             out.append(('sessinit',))
+        elif name == 'ExcludedPhrases':
+            out.append(('xphr', bool(a[0])))
         elif name == 'ServerSearch':
             out.append(('search', 'server', 'server', a[0], a[1], 'search'))
         elif name == 'DistSearch':
@@ -114,19 +116,32 @@ def speed_for(acc: bool, m: int, ms: int, ra: int, rng) -> int:
     return rng.choice([lo, hi, (lo + hi) // 2])
 
 
-def concretise(abstract, rng, *, variant: int):
-    """Abstract stimuli -> (concrete stimuli for World.do, world keyword arguments)."""
+def outcome(speed: int, ms: int, ra: int):
+    """(accept, max children) of the documented formula."""
+    acc = speed >= ms * 1024
+    return acc, (speed * 10 // (ra * 1024) if acc else 0)
+
+
+PEER_KINDS = ('attempt', 'incoming', 'level', 'root', 'close', 'wcdone', 'drained')
+
+
+def concretise_groups(abstract, rng, *, variant: int):
+    """Abstract stimuli -> (one list of concrete stimuli per abstract stimulus, world keyword arguments)."""
     ns = NAME_SETS[variant % len(NAME_SETS)]
     ms, ra = 1, 50
+    known = set()                 # parameters sent in this session
+    speed = None                  # speed the server last reported for us
     sess = True
-    out = []
+    groups = []
     for st in abstract:
         k = st[0]
+        out = []
         if k == 'ustats' and sess and rng.random() < 0.4:
             # parameters under which the boundaries of the formula matter (a speed just below the
             # minimum would still allow children if it were accepted); ParamMsg has no other effect
             ms, ra = rng.choice([2, 5]), rng.choice([10, 20])
             out += [('param', 'minspeed', ms), ('param', 'ratio', ra)]
+            known = {'minspeed', 'ratio'}
         if k == 'sessinit':
             sess = True
         if k == 'pp':
@@ -141,20 +156,65 @@ def concretise(abstract, rng, *, variant: int):
                 ms = v
             else:
                 ra = v
+            known.add(st[1])
             out.append(('param', st[1], v))
         elif k == 'ustats':
             if rng.random() < 0.15:
                 out.append(('ustats', rng.choice([0, 1023, 5120, 999999]), 'other'))
-            out.append(('ustats', speed_for(st[1], st[2], ms, ra, rng), 'me'))
+            speed = speed_for(st[1], st[2], ms, ra, rng)
+            out.append(('ustats', speed, 'me'))
+            if sess and rng.random() < 0.5:
+                # the server changes a parameter mid-session while our speed stays what it is: the client
+                # asks for its statistics again (both parameters known) and gets the same speed back -
+                # the limit follows the new parameter.  Prefer an update that changes the outcome.
+                cands = [('ratio', v) for v in RATIOS if v != ra] + [('minspeed', v) for v in MIN_SPEEDS + [20] if v != ms]
+                rng.shuffle(cands)
+                cur = outcome(speed, ms, ra)
+                cands.sort(key=lambda c: not outcome(speed, c[1] if c[0] == 'minspeed' else ms,
+                                                     c[1] if c[0] == 'ratio' else ra) < cur)   # lowering ones first
+                kind, v = cands[0]
+                for other in ('minspeed', 'ratio'):
+                    if other != kind and other not in known:
+                        out.append(('param', other, ms if other == 'minspeed' else ra))
+                        known.add(other)
+                out.append(('param', kind, v))
+                known.add(kind)
+                if kind == 'minspeed':
+                    ms = v
+                else:
+                    ra = v
         elif k == 'sesslost':
             ms, ra = 1, 50
+            known = set()
             sess = False
             out.append(('sesslost', rng.choice(['eof', 'reset'])))
         else:
             out.append(st)
+        groups.append(out)
     names = {p: ns[p] for p in ('p1', 'p2', 'p3', 'p4')}
     world = dict(names=names, me=ns['me'], roots={'r1': ns['r1'], 'r2': ns['r2']})
-    return out, world
+    return groups, world
+
+
+def with_server_pause(conc, rng, rate=0.12):
+    """Now and then the server connection does not drain for a while: every send of the client to the
+    server then suspends (FIFO wake-up) while peers keep talking.  Only peer-side stimuli go inside."""
+    if rng.random() >= rate:
+        return conc
+    spans = [i for i, st in enumerate(conc) if st[0] in PEER_KINDS]
+    if not spans:
+        return conc
+    i = rng.choice(spans)
+    j = i
+    while j + 1 < len(conc) and conc[j + 1][0] in PEER_KINDS and j - i < 2 and rng.random() < 0.7:
+        j += 1
+    return conc[:i] + [('srvpause',)] + conc[i:j + 1] + [('srvresume',)] + conc[j + 1:]
+
+
+def concretise(abstract, rng, *, variant: int):
+    """Abstract stimuli -> (concrete stimuli for World.do, world keyword arguments)."""
+    groups, world = concretise_groups(abstract, rng, variant=variant)
+    return with_server_pause([st for g in groups for st in g], rng), world
 
 
 # ---------------------------------------------------------------------------
@@ -279,6 +339,30 @@ def collect(chk: Check, thorough: bool):
     return scheds
 
 
+def sample_by_source(chk: Check, scheds, keys, cap):
+    """All counterexamples; the rest of the budget is shared equally between the sources (edge cover,
+    simulated behaviours) - the cover is far larger than the simulation and would crowd it out."""
+    if len(keys) <= cap:
+        return keys
+    src = lambda k: scheds[k].split(':')[0]
+    head = [k for k in keys if src(k) == 'counterexample']
+    pools: dict = {}
+    for k in keys:
+        if src(k) != 'counterexample':
+            pools.setdefault(src(k), []).append(k)
+    for pool in pools.values():
+        chk.rng.shuffle(pool)
+    room = cap - len(head)
+    picked = []
+    order = sorted(pools)
+    while room > 0 and any(pools[o] for o in order):
+        for o in order:
+            if pools[o] and room > 0:
+                picked.append(pools[o].pop())
+                room -= 1
+    return head + sorted(picked, key=repr)
+
+
 def run(chk: Check, args):
     thorough = chk.tier == 'thorough'
     chk.cov['rule'] = (
@@ -305,11 +389,7 @@ def run(chk: Check, args):
     scheds = collect(chk, thorough)
     keys = sorted(scheds, key=lambda s: (scheds[s].split(':')[0] != 'counterexample', repr(s)))
     cap = 6000 if thorough else 900
-    if len(keys) > cap:
-        head = [k for k in keys if scheds[k].startswith('counterexample')]
-        rest = [k for k in keys if not scheds[k].startswith('counterexample')]
-        chk.rng.shuffle(rest)
-        keys = head + sorted(rest[:cap - len(head)], key=repr)
+    keys = sample_by_source(chk, scheds, keys, cap)
 
     traces, metas = [], []
     truncated = 0
@@ -367,8 +447,11 @@ def run(chk: Check, args):
         'child acceptance / maximum are the documented functions of the last GetUserStats reply for the own name '
         '(SOULSEEK.rst "Max children", server defaults 1 and 50); before the first reply: accepting, limit 5; '
         'ratios are chosen so that ratio/10*1024 is exact in binary floating point',
-        'sends to the server and queued sends to children complete in FIFO order without an external gate; '
-        'gated are wait_closed() of distributed links and drain() of a new child link',
+        'gated are wait_closed() of distributed links, drain() of a new child link and - in about one execution '
+        'in eight - drain() of the server connection for a stretch of peer-side stimuli (FIFO wake-up, as one '
+        'StreamWriter gives it); queued sends to children complete in FIFO order',
+        'the scripted server answers GetUserStats for the own user with the speed it last reported, so a '
+        'ParentMinSpeed/ParentSpeedRatio update mid-session recalculates the limit for an unchanged speed',
         '"at quiescence" = snapshot with no wait_closed()/drain() of a distributed link pending and the ready queue empty',
     ]
 
